@@ -1,6 +1,7 @@
 SPECIFICATION GenSpec
 CONSTANTS
   Models = {"sphere", "cylinder", "broad_peak", "sphere@hardsphere", "sphere+cylinder"}
+  Focus = "all"
   WModels = {"sphere", "cylinder", "broad_peak"}
   QSets = {"q1", "q2", "qxy"}
   Requests = {"mono", "pd", "pdc", "pd2", "empty", "mode", "mag"}
@@ -10,6 +11,7 @@ CONSTANTS
   EmptyReq = "empty"
   ModeReq = "mode"
   Variant = "fixed"
+  WithExp = TRUE
   TrackHeld = FALSE
   ReturnsView = FALSE
 INVARIANT Emit
